@@ -45,7 +45,13 @@ PROP = dict(
         "Poseidon2 is cross-checked with DegreeSBox(), MiMC constants with GetConstants()",
         "Merkle-Damgard wrapper: a short final block of a Write is zero-padded on the left (as implemented and as the MiMC package "
         "documents for short values; the doc comment only says 'zero-padded')",
-        "after a Write/SetState error only Reset is assumed to restore a defined state (DESIGN §11)",
+        "hasher families driven by the streaming, instances and cold-start jobs (all in the quick tier): MiMC of bn254, bls12-377, "
+        "bls12-381, bls24-315, bls24-317, bw6-633, bw6-761, grumpkin (constructors: default, WithByteOrder(BigEndian), "
+        "WithByteOrder(LittleEndian), registry id) and the Poseidon2 Merkle-Damgard hashers of the same eight curves plus koalabear, "
+        "babybear, goldilocks (constructors: NewMerkleDamgardHasher, registry id) - 19 families, every package with a mimc/poseidon2 hasher",
+        "a refused Write does not end the history: the model keeps what the tree documents as accepted - MiMC: nothing of the refused "
+        "call ('do not keep a partially absorbed input'), n=0; Merkle-Damgard wrapper: the blocks before the refused one are absorbed "
+        "and counted in n (io.Writer); a refused MiMC SetState leaves the hasher unchanged",
         "SIS limbs are scaled by 2^-(8*Bytes) exactly as the shipped sage/python generators specify ('careful Montgomery constant')",
         "amd64 host with AVX-512: the vectorised Poseidon2/SIS kernels are the code under test for their parameter sets; other "
         "configurations are decided by C09",
@@ -69,6 +75,11 @@ PROP = dict(
                    "instances:second_obtained_after_write"]
                   + ["instances:registry:MIMC_" + c.upper().replace("-", "_") for c in _CURVES8]
                   + ["instances:registry:POSEIDON2_" + c.upper().replace("-", "_") for c in _CURVES8 + ["koalabear", "babybear", "goldilocks"]]
+                  # per hasher family: a refused Write while accepted data is pending, then the stream continues; every slice
+                  # returned by Sum/State kept across later calls (on all instances), scribbled over and appended to
+                  + ["%s:%s" % (c, f) for c in ("refused_write_with_pending_data", "sum_nil_kept_across_calls", "returned_scribbled")
+                     for f in MIMC + P2]
+                  + ["sum:prefix_exact"]
                   + _cold_classes(),
     jobs=[
         dict(name="anchors", pkg="c14", run="^TestC14_Anchors$", rapid=False),
